@@ -73,6 +73,21 @@ def rule_R2(chk, repo, rid='C05.R2'):
                         if isinstance(x, ast.Name):
                             S.add(x.id)
         ok = bool(placed)
+        # a placement through `.opics = ...` must address the edges ENTERING the node that becomes the end terminal
+        term = [n_ for s_ in post for n_ in ast.walk(s_) if isinstance(n_, ast.Assign) and
+                norm(n_.targets[0]).endswith('nid_terminal[1]')]
+        for kind, node in placed:
+            if kind != 'store to .opics':
+                continue
+            from ..defuse import enclosing_loops
+            from ..match import pmatch
+            loops_ = [l for l in enclosing_loops(fi.node, node) if isinstance(l, ast.For)]
+            b = pmatch('__G.nodes[__N].eids[__D]', loops_[-1].iter) if loops_ else None
+            good = b is not None and b['__D'] == '0' and len(term) == 1 and b['__N'] == norm(term[0].value)
+            chk.ob(rid, where(repo, fi, node), f'pending coefficient of `{v}` is put on the edges entering the end node',
+                   good, f'loop over `{norm(loops_[-1].iter) if loops_ else None}`, end node '
+                         f'`{norm(term[0].value) if term else None}`', key=f'{rid}|{fi.qual}|{v}|in-edges')
+            n_ob += 1
         if ok:
             detail = f'pending coefficients in `{v}` are placed after the sweep by: ' + \
                      '; '.join(f'{k} at line {n.lineno}' for k, n in placed)
